@@ -397,6 +397,17 @@ def main():
     if rm and ln:
         add("R19.d", "rm-before-ln", "bin/newpolicy.sh", "old link removed before the new one is created", rm[0].order < ln[0].order, "")
 
+    # ---- R19.g: the new number is published before it is used
+    rule("R19.g", "In handle_success the POLICY file with the new number is written, committed and pushed (`echo ... > POLICY`, `git commit`, `git push`) before `mv next $POLICY` gives the directory its final name: a run killed between the rename and the link switch leaves the number recorded in the repository, so the next run (max of POLICY file and link, plus one) does not reuse it.")
+    wr = [c for c in hs if any(re.match(r"^>+POLICY$", w) or w == "POLICY" and k > 0 and c.words[k-1] in (">", ">>") for k, w in enumerate(c.words)) or c.text.rstrip().endswith("> POLICY")]
+    commit = [c for c in hs if c.words[:2] == ["git", "commit"]]
+    push = [c for c in hs if c.words[:2] == ["git", "push"]]
+    add("R19.g", "policy-file-written", "bin/newpolicy.sh", "POLICY file written with $POLICY in handle_success: %s" % [c.text for c in wr],
+        len(wr) >= 1 and "$POLICY" in wr[0].text, "")
+    okpub = bool(wr and commit and push and mv) and wr[0].order < commit[0].order < push[0].order < mv[0].order and not push[0].ctx and not commit[0].ctx
+    add("R19.g", "published-before-rename", "bin/newpolicy.sh", "write POLICY < git commit < git push < mv next $POLICY", okpub,
+        "the new policy number is not durable in the repository when the directory is renamed: after a kill at the link switch the number is reused (mv nests the new compile inside the old pN)")
+
     # ---- R19.f
     pn = [c for c in cmds if c.func == "prepare_next"]
     pol = [c for c in cmds if re.match(r"^POLICY=", c.words[0])]
